@@ -17,14 +17,14 @@ import (
 // deterministic fraction |f| <= 0.45 derived from FracSeed (0 = no fractions).
 type C07Case struct {
 	Op       string      `json:"op"`
-	Prec     int         `json:"prec"`      // 99 = use the default (2) by not passing a precision
-	Subj     Paths       `json:"subj"`      // or the pattern / the paths to clip / the path to trim
-	Clip     Paths       `json:"clip"`      // or the Minkowski path
-	Rect     RectJ       `json:"rect"`      // rect clip intents
+	Prec     int         `json:"prec"` // 99 = use the default (2) by not passing a precision
+	Subj     Paths       `json:"subj"` // or the pattern / the paths to clip / the path to trim
+	Clip     Paths       `json:"clip"` // or the Minkowski path
+	Rect     RectJ       `json:"rect"` // rect clip intents
 	CT       c2.ClipType `json:"ct"`
 	FR       c2.FillRule `json:"fr"`
-	Delta    float64     `json:"delta"`     // inflate, in float units
-	ArcTol   float64     `json:"arc_tol"`   // inflate, in float units
+	Delta    float64     `json:"delta"`   // inflate, in float units
+	ArcTol   float64     `json:"arc_tol"` // inflate, in float units
 	Join     c2.JoinType `json:"join"`
 	End      c2.EndType  `json:"end"`
 	Closed   bool        `json:"closed"`    // minkowski isClosed / trim !isOpen
